@@ -49,6 +49,12 @@ def c10_unit(c):
     return None
 
 
+def c04_unit(c):
+    if c.get("fn") == "pos" and c.get("overlap"):
+        return "positioner %s: %s" % (c.get("alg"), c["overlap"])
+    return None
+
+
 def c12_unit(c):
     if c.get("fn") == "crossings" and c.get("count_impl") != c.get("count_naive"):
         return "the crossing counter reports %d crossings for an order that has %d (layer widths %s)" % (c["count_impl"], c["count_naive"], c.get("widths"))
@@ -56,7 +62,7 @@ def c12_unit(c):
 
 
 PROPS = {
-    "C01": dict(units=["p1greedy", "p1dfs"], n_units=dict(quick=1500, thorough=20000), trace_gen="C02", oracle="C01", relevant=rel({s: set() for s in list(range(0, 9)) + [15, 16]}),
+    "C01": dict(units=["p1greedy", "p1dfs", "pos-bk", "pos-ns", "pos-sink"], n_units=dict(quick=1500, thorough=20000), trace_gen="C02", oracle="C01", relevant=rel({s: set() for s in list(range(0, 9)) + [15, 16]}),
                 trace_env={"VH_DEEP": "1"}, n_trace=dict(quick=96, thorough=800), n_search=dict(quick=1500, thorough=40000)),
     "C02": dict(trace_gen="C02", oracle="C02",
                 relevant=rel({0: STRUCT | SIZE | {50}, 1: COMP, 2: STRUCT, 3: STRUCT, 5: STRUCT, 7: STRUCT | ROUTE, 8: STRUCT | ROUTE | SIZE, 9: {1, 2}}),
@@ -65,7 +71,7 @@ PROPS = {
                 relevant=rel({3: STRUCT, 4: LAYER, 5: LAYER | STRUCT, 6: XY, 7: ROUTE | STRUCT, 8: ROUTE | STRUCT, 9: {1, 2}}),
                 n_trace=dict(quick=200, thorough=2000), n_search=dict(quick=3000, thorough=60000),
                 units=["vbalance", "normalize", "ns"], n_units=dict(quick=1200, thorough=12000), unit_classify=c03_unit),
-    "C04": dict(trace_gen="C04", oracle="C04", relevant=rel({5: POS, 6: XY | SIZE, 9: {1}}),
+    "C04": dict(units=["pos-sink", "pos-valign", "pos-packright", "pos-ns"], n_units=dict(quick=400, thorough=6000), unit_classify=c04_unit, trace_gen="C04", oracle="C04", relevant=rel({5: POS, 6: XY | SIZE, 9: {1}}),
                 n_trace=dict(quick=160, thorough=1500), n_search=dict(quick=3000, thorough=60000)),
     "C05": dict(trace_gen="C05", oracle="C05", relevant=rel({6: XY, 7: ROUTE | STRUCT, 8: ROUTE | STRUCT, 9: {1, 2}}),
                 n_trace=dict(quick=200, thorough=2000), n_search=dict(quick=3000, thorough=60000)),
@@ -89,9 +95,9 @@ PROPS = {
     "C14": dict(units=["p1greedy", "p1dfs"], n_units=dict(quick=1500, thorough=20000), trace_gen="C14", oracle="C14", relevant=rel({2: STRUCT, 3: STRUCT, 8: STRUCT}),
                 n_trace=dict(quick=200, thorough=2000), n_search=dict(quick=3000, thorough=60000)),
     "C15": dict(level="proof", oracle="C15", n_search=dict(quick=150, thorough=3000), race=True, n_race=dict(quick=40, thorough=600)),
-    "C16": dict(trace_gen="C16", oracle="C16", relevant=rel({5: POS | STRUCT, 6: XY | SIZE, 9: {1}}),
+    "C16": dict(units=["pos-valign", "pos-packright"], n_units=dict(quick=400, thorough=6000), trace_gen="C16", oracle="C16", relevant=rel({5: POS | STRUCT, 6: XY | SIZE, 9: {1}}),
                 n_trace=dict(quick=200, thorough=2000), n_search=dict(quick=3000, thorough=60000)),
-    "C17": dict(trace_gen="C17", oracle="C17", relevant=rel({6: XY | SIZE, 7: ROUTE}),
+    "C17": dict(units=["pos-bk", "pos-sink"], n_units=dict(quick=300, thorough=5000), trace_gen="C17", oracle="C17", relevant=rel({6: XY | SIZE, 7: ROUTE}),
                 n_trace=dict(quick=160, thorough=1500), n_search=dict(quick=2500, thorough=40000)),
     "C18": dict(level="proof", oracle="C18", n_search=dict(quick=600, thorough=20000)),
     "C19": dict(level="proof", custom=["c19_step"]),
